@@ -14,6 +14,7 @@
 -/
 import YV.Proofs.YEnc
 import YV.Proofs.YEncX
+import YV.Proofs.YEncE
 namespace YV.Props.C19
 open YV YV.Y YV.SC YV.D YV.E
 
@@ -61,6 +62,34 @@ theorem C19_xml_roundtrip (top : List (SN τ)) (rn : Tok) (ks : List DN) (hwf : 
       (fun e he => by rw [xencKids_flatMap]; exact gather_blocks _ _ (blocks_of_wf top ks hwf) e he)
     simp only [toX, fromX, DN.kids, DN.name, xdec_whole top ks f hwf hall, Option.map_some]
 
+/-- **C19 (round trip, XML, lists and leaf-lists without entries).** The decoders return a list or leaf-list node without
+    entries for `"l": []`; the JSON writers write it back as an empty array (`C19_json_roundtrip` covers such trees), the
+    XML writer has no element to write for it.  For every schema and every tree that is well-formed but for such nodes,
+    at any depth, the XML encoding decodes to the tree without them (`dropEmpty`): nothing else is lost or changed. -/
+theorem C19_xml_roundtrip_modulo_empty (top : List (SN τ)) (rn : Tok) (ks : List DN) (hwf : xwfKids0 top ks)
+    (fuel : Nat) (hf : dDepthL ks < fuel) :
+    fromX top fuel (toX top (.mk rn ks [])) = some (.mk rn (dropEmpty top ks) []) :=
+  xml_roundtrip_dropEmpty top rn ks hwf fuel hf
+
+/-- a tree without such nodes is left as it is -/
+theorem C19_dropEmpty_writes_the_same (top : List (SN τ)) (ks : List DN) :
+    xencKids top (dropEmpty top ks) = xencKids top ks := xencKids_dropEmpty top ks
+
+/-! non-vacuity: container c { leaf-list ll; leaf x; } with ll present and empty, x = "v" -/
+def exTop : List (SN Unit) := [.container [99] false [.leafList [108] () 0 none, .leaf [120] () none false]]
+def exKs : List DN := [.mk [99] [.mk [108] [] [], .mk [120] [] [[118]]] []]
+example : xwfKids0 exTop exKs := by
+  unfold exTop exKs
+  rw [xwfKids0.eq_def]
+  simp only [lookup, dataKids, SN.name, DN.name]
+  refine ⟨by simp, ⟨rfl, ?_⟩, by rw [xwfKids0.eq_def]; trivial⟩
+  rw [xwfKids0.eq_def]
+  simp only [lookup, dataKids, SN.name, DN.name]
+  refine ⟨by simp [DN.name], by simp, ?_⟩
+  rw [xwfKids0.eq_def]
+  simp only [lookup, dataKids, SN.name, DN.name]
+  refine ⟨by simp, by simp, by rw [xwfKids0.eq_def]; trivial⟩
+
 /-- all three encodings of a tree decode to the same children, in the same order -/
 theorem C19_three_encodings_agree (kind : τ → VK) (mo : List Tok → Tok) (hm : ∀ p, (mo p).contains 58 = false)
     (top : List (SN τ)) (rn : Tok) (ks : List DN) (hj : wfKids kind top ks = true) (hx : xwfKids top ks)
@@ -70,6 +99,19 @@ theorem C19_three_encodings_agree (kind : τ → VK) (mo : List Tok → Tok) (hm
     (fromX top fuel (toX top (.mk rn ks []))).map DN.kids = some ks := by
   rw [C19_json_roundtrip kind true mo hm top rn ks hj, C19_json_roundtrip kind false mo hm top rn ks hj,
     C19_xml_roundtrip top rn ks hx fuel hf]
+  simp [DN.kids]
+
+/-- **C19 (the three encodings, lists and leaf-lists without entries admitted).** Both JSON encodings decode to the tree,
+    XML to the tree without its empty list / leaf-list nodes: up to those nodes — which say what their absence says —
+    all three encodings of a tree decode to the same tree. -/
+theorem C19_three_encodings_agree_modulo_empty (kind : τ → VK) (mo : List Tok → Tok) (hm : ∀ p, (mo p).contains 58 = false)
+    (top : List (SN τ)) (rn : Tok) (ks : List DN) (hj : wfKids kind top ks = true) (hx : xwfKids0 top ks)
+    (fuel : Nat) (hf : dDepthL ks < fuel) :
+    (fromJ top (toJ kind true mo top (.mk rn ks []))).map (fun d => dropEmpty top d.kids) = some (dropEmpty top ks) ∧
+    (fromJ top (toJ kind false mo top (.mk rn ks []))).map (fun d => dropEmpty top d.kids) = some (dropEmpty top ks) ∧
+    (fromX top fuel (toX top (.mk rn ks []))).map DN.kids = some (dropEmpty top ks) := by
+  rw [C19_json_roundtrip kind true mo hm top rn ks hj, C19_json_roundtrip kind false mo hm top rn ks hj,
+    C19_xml_roundtrip_modulo_empty top rn ks hx fuel hf]
   simp [DN.kids]
 
 /-! non-vacuity: container c { leaf x (int64) ; leaf-list l (string) } with x = "9223372036854775807" -/
